@@ -1244,8 +1244,12 @@ def evaluate__unparsed_text(self: XPathFunction, context: ta.ContextType = None)
     href: Optional[str] = self.get_argument(context, cls=str)
     if href is None:
         return []
-    elif urlsplit(href).fragment:
-        raise self.error('FOUT1170')
+
+    try:
+        if urlsplit(href).fragment:
+            raise self.error('FOUT1170')
+    except ValueError as err:
+        raise self.error('FOUT1170', f'{href!r} is not a valid URI: {err}') from None
 
     encoding: str
     if len(self) > 1:
@@ -1310,8 +1314,12 @@ def evaluate__unparsed_text_available(self: XPathFunction, context: ta.ContextTy
     href = self.get_argument(context, cls=str)
     if href is None:
         return False
-    elif urlsplit(href).fragment:
-        return False
+
+    try:
+        if urlsplit(href).fragment:
+            return False
+    except ValueError:
+        return False  # not a valid URI
 
     if len(self) > 1:
         encoding = self.get_argument(context, index=1, required=True, cls=str)
